@@ -728,6 +728,328 @@ def gen_consts():
 
 
 # ------------------------------------------------------------------------------------------
+# symbolic execution of straight-line kernels over small fixed arrays (small-fft.h, _dft_n3)
+
+
+def dyadic(f):
+    """exact Lean term for a float that is k/2^j with small j, else None"""
+    for j in range(0, 12):
+        v = f * (1 << j)
+        if v == int(v) and abs(v) < 1e9:
+            k = int(v)
+            if j == 0:
+                return "(Fn.ofInt (%d : Int))" % k
+            return "((Fn.ofInt (%d : Int)) / (Fn.ofInt (%d : Int)))" % (k, 1 << j)
+    return None
+
+
+class SymExec:
+    """cells: (array, index) -> ('cx', expr) | ('fields', re, im) | ('real', expr)"""
+
+    def __init__(self, fname, in_name, in_kind, out_name, callee_map):
+        self.fname = fname
+        self.cells = {}
+        self.sizes = {}
+        self.kinds = {}           # array name -> 'cx' | 'real'
+        self.scalars = {}         # local scalar name -> lean expr
+        self.consts = {}          # loop variables -> int
+        self.lines = []
+        self.lits = []            # distinct non-dyadic literal magnitudes (as repr strings)
+        self.in_name, self.in_kind, self.out_name = in_name, in_kind, out_name
+        self.out_off = 0
+        self.callee_map = callee_map
+        self.fresh = 0
+        self.kinds[in_name] = in_kind
+        self.kinds[out_name] = "cx"
+
+    def lit(self, v):
+        f = float(v)
+        d = dyadic(f)
+        if d is not None:
+            return d
+        key = repr(abs(f))
+        if key not in self.lits:
+            self.lits.append(key)
+        name = "c%d" % self.lits.index(key)
+        return name if f > 0 else "(-%s)" % name
+
+    def let(self, base, ty, expr):
+        name = base
+        k = 0
+        while any(l.startswith("let %s " % name) for l in self.lines):
+            k += 1
+            name = "%s_%d" % (base, k)
+        self.lines.append("let %s : %s := %s" % (name, ty, expr))
+        return name
+
+    # ---- integer constant evaluation (indices, loop counters)
+    def cint(self, n):
+        k = n.get("kind")
+        if k == "IntegerLiteral":
+            return int(n["value"])
+        if k in ("ImplicitCastExpr", "ParenExpr"):
+            return self.cint(n["inner"][0])
+        if k == "DeclRefExpr":
+            nm = n["referencedDecl"]["name"]
+            if nm in self.consts:
+                return self.consts[nm]
+        if k == "BinaryOperator" and n["opcode"] in "+-*":
+            a, b = self.cint(n["inner"][0]), self.cint(n["inner"][1])
+            return {"+": a + b, "-": a - b, "*": a * b}[n["opcode"]]
+        raise Unsupported("non-constant index in kernel %s (%s)" % (self.fname, k))
+
+    # ---- lvalues
+    def lval(self, n):
+        """returns (array, index, field|None)"""
+        k = n.get("kind")
+        if k in ("ImplicitCastExpr", "ParenExpr"):
+            return self.lval(n["inner"][0])
+        if k == "MemberExpr":
+            a, i, f = self.lval(n["inner"][0])
+            if f is not None:
+                raise Unsupported("nested member")
+            return a, i, n["name"]
+        if k == "ArraySubscriptExpr":
+            base = find_all(n["inner"][0], lambda x: x.get("kind") == "DeclRefExpr")[0]["referencedDecl"]["name"]
+            return base, self.cint(n["inner"][1]), None
+        if k == "UnaryOperator" and n["opcode"] == "*":
+            inner = n["inner"][0]
+            if inner.get("kind") == "UnaryOperator" and inner["opcode"] == "++" and inner.get("isPostfix"):
+                base = find_all(inner, lambda x: x.get("kind") == "DeclRefExpr")[0]["referencedDecl"]["name"]
+                if base != self.out_name:
+                    raise Unsupported("pointer increment on %s" % base)
+                i = self.out_off
+                self.out_off += 1
+                return base, i, None
+        raise Unsupported("lvalue kind %s in kernel %s" % (k, self.fname))
+
+    def read(self, a, i, f):
+        if a == self.in_name:
+            base = "(%s %d)" % (a, i)
+            if self.in_kind == "real":
+                return base
+            return base if f is None else "%s.%s" % (base, f)
+        c = self.cells.get((a, i))
+        if c is None:
+            if a in self.sizes or a == self.out_name:
+                c = ("fields", "(Fn.ofInt (0 : Int))", "(Fn.ofInt (0 : Int))") if self.kinds.get(a) == "cx" else ("real", "(Fn.ofInt (0 : Int))")
+            else:
+                raise Unsupported("read of unknown array %s" % a)
+        if c[0] == "real":
+            return c[1]
+        if c[0] == "cx":
+            return c[1] if f is None else "%s.%s" % (c[1], f)
+        if f is None:
+            return "(Cx.mk %s %s)" % (c[1], c[2])
+        return c[1] if f == "re" else c[2]
+
+    def write(self, a, i, f, expr):
+        kind = self.kinds.get(a)
+        if kind is None:
+            raise Unsupported("write to unknown array %s" % a)
+        if kind == "real":
+            nm = self.let("%s_%d" % (a, i), "α", expr)
+            self.cells[(a, i)] = ("real", nm)
+            return
+        if f is None:
+            nm = self.let("%s_%d" % (a, i), "Cx α", expr)
+            self.cells[(a, i)] = ("cx", nm)
+            return
+        nm = self.let("%s_%d_%s" % (a, i, f), "α", expr)
+        cur = self.cells.get((a, i))
+        if cur is None or cur[0] == "cx":
+            base = cur[1] if cur else None
+            re_ = ("%s.re" % base) if base else "(Fn.ofInt (0 : Int))"
+            im_ = ("%s.im" % base) if base else "(Fn.ofInt (0 : Int))"
+            cur = ("fields", re_, im_)
+        self.cells[(a, i)] = ("fields", nm, cur[2]) if f == "re" else ("fields", cur[1], nm)
+
+    # ---- expressions
+    def e(self, n):
+        k = n.get("kind")
+        if k in ("ImplicitCastExpr", "ParenExpr", "ExprWithCleanups", "MaterializeTemporaryExpr", "CXXBindTemporaryExpr",
+                 "CXXFunctionalCastExpr", "ConstantExpr"):
+            ck = n.get("castKind")
+            if ck == "IntegralToFloating":
+                return "(Fn.ofInt (%d : Int))" % self.cint(n["inner"][0])
+            return self.e(n["inner"][0])
+        if k == "FloatingLiteral":
+            return self.lit(n["value"])
+        if k == "IntegerLiteral":
+            return "(Fn.ofInt (%s : Int))" % n["value"]
+        if k in ("ArraySubscriptExpr", "MemberExpr") or (k == "UnaryOperator" and n["opcode"] == "*"):
+            return self.read(*self.lval(n))
+        if k == "DeclRefExpr":
+            nm = n["referencedDecl"]["name"]
+            if nm in self.scalars:
+                return self.scalars[nm]
+            raise Unsupported("reference to %s in kernel" % nm)
+        if k == "UnaryOperator" and n["opcode"] == "-":
+            return "(-%s)" % self.e(n["inner"][0])
+        if k == "UnaryOperator" and n["opcode"] == "+":
+            return self.e(n["inner"][0])
+        if k == "BinaryOperator" and n["opcode"] in ("+", "-", "*", "/"):
+            return "(%s %s %s)" % (self.e(n["inner"][0]), n["opcode"], self.e(n["inner"][1]))
+        if k == "CXXOperatorCallExpr":
+            cal = find_all(n["inner"][0], lambda x: x.get("kind") == "DeclRefExpr")[0]["referencedDecl"]
+            op = cal["name"].replace("operator", "")
+            args = n["inner"][1:]
+            if op in ("+", "-", "*", "/") and len(args) == 2:
+                ka, kb = kind_of_type(qt(args[0])), kind_of_type(qt(args[1]))
+                a, b = self.e(args[0]), self.e(args[1])
+                if ka == "cx" and kb == "cx":
+                    return "(%s %s %s)" % (a, op, b)
+                if ka == "cx" and kb == "real":
+                    return "(Cx.%s %s %s)" % ({"+": "addr", "-": "subr", "*": "mulr", "/": "divr"}[op], a, b)
+                if ka == "real" and kb == "cx":
+                    return "(Cx.%s %s %s)" % ({"+": "radd", "-": "rsub", "*": "rmul", "/": "rdiv"}[op], a, b)
+            if op == "-" and len(args) == 1:
+                return "(-%s)" % self.e(args[0])
+            raise Unsupported("operator %s in kernel" % op)
+        if k in ("CXXTemporaryObjectExpr", "CXXConstructExpr", "InitListExpr"):
+            args = [a for a in n.get("inner", []) if a.get("kind") != "CXXDefaultArgExpr"]
+            if kind_of_type(qt(n)) == "cx":
+                if len(args) == 2:
+                    return "(Cx.mk %s %s)" % (self.e(args[0]), self.e(args[1]))
+                if len(args) == 1:
+                    if kind_of_type(qt(args[0])) == "cx":
+                        return self.e(args[0])
+                    return "(Cx.mk %s (Fn.ofInt (0 : Int)))" % self.e(args[0])
+        raise Unsupported("expression kind %s in kernel %s" % (k, self.fname))
+
+    # ---- statements
+    def stmt(self, s):
+        k = s.get("kind")
+        if k == "CompoundStmt":
+            for c in s.get("inner", []):
+                self.stmt(c)
+            return
+        if k in ("NullStmt",):
+            return
+        if k == "ExprWithCleanups":
+            return self.stmt(s["inner"][0])
+        if k == "DeclStmt":
+            for d in s["inner"]:
+                t = qt(d)
+                m = re.match(r"(?:const )?(dsplib::cmplx_t|cmplx_t|dsplib::real_t|real_t|double)\[(\d+)\]", t)
+                if m:
+                    self.sizes[d["name"]] = int(m.group(2))
+                    self.kinds[d["name"]] = "cx" if "cmplx" in m.group(1) else "real"
+                    continue
+                kt = kind_of_type(t)
+                init = [c for c in d.get("inner", [])]
+                if kt == "real" and init:
+                    self.scalars[d["name"]] = self.let(d["name"], "α", self.e(init[0]))
+                    continue
+                if kt == "int" and init:
+                    self.consts[d["name"]] = self.cint(init[0])
+                    continue
+                raise Unsupported("declaration of %s : %s in kernel" % (d.get("name"), t))
+            return
+        if k == "BinaryOperator" and s["opcode"] == "=":
+            a, i, f = self.lval(s["inner"][0])
+            self.write(a, i, f, self.e(s["inner"][1]))
+            return
+        if k == "CXXOperatorCallExpr":
+            cal = find_all(s["inner"][0], lambda x: x.get("kind") == "DeclRefExpr")[0]["referencedDecl"]
+            if cal["name"] == "operator=":
+                rhs = self.e(s["inner"][2])    # evaluate before taking the (possibly post-incremented) target
+                a, i, f = self.lval(s["inner"][1])
+                self.write(a, i, f, rhs)
+                return
+        if k == "CallExpr":
+            cal = find_all(s["inner"][0], lambda x: x.get("kind") == "DeclRefExpr")[0]["referencedDecl"]
+            key = (cal["name"], "real" if re.search(r"\(const (dsplib::)?real_t", cal.get("type", {}).get("qualType", "")) or
+                   "const double *" in cal.get("type", {}).get("qualType", "") else "cx")
+            if key not in self.callee_map:
+                raise Unsupported("call to %s in kernel" % (key,))
+            lean_fn, n_in = self.callee_map[key]
+            src = find_all(s["inner"][1], lambda x: x.get("kind") == "DeclRefExpr")[0]["referencedDecl"]["name"]
+            dst = find_all(s["inner"][2], lambda x: x.get("kind") == "DeclRefExpr")[0]["referencedDecl"]["name"]
+            reads = [self.read(src, i, None) for i in range(n_in)]
+            lam = "fun i => " + " ".join("if i = %d then %s else" % (i, r) for i, r in enumerate(reads[:-1])) + " " + reads[-1]
+            nm = self.let(dst, "Nat → Cx α", "%s (%s)" % (lean_fn, lam))
+            for i in range(n_in):
+                self.cells[(dst, i)] = ("cx", "(%s %d)" % (nm, i))
+            return
+        if k == "ForStmt":
+            init, _, cond, inc, body = s["inner"]
+            vd = init["inner"][0]
+            var = vd["name"]
+            self.consts[var] = self.cint(vd["inner"][0])
+            if not (cond.get("kind") == "BinaryOperator" and cond["opcode"] == "<"):
+                raise Unsupported("loop condition in kernel")
+            hi = self.cint(cond["inner"][1])
+            if not (inc.get("kind") == "UnaryOperator" and inc["opcode"] == "++"):
+                raise Unsupported("loop increment in kernel")
+            guard = 0
+            while self.consts[var] < hi:
+                self.stmt(body)
+                self.consts[var] += 1
+                guard += 1
+                if guard > 64:
+                    raise Unsupported("loop too long to unroll")
+            del self.consts[var]
+            return
+        raise Unsupported("statement kind %s in kernel %s" % (k, self.fname))
+
+
+def gen_kernel(method, lean_name, in_kind, n_out, callee_map):
+    ps = params_of(method)
+    se = SymExec(method["name"], ps[0]["name"], in_kind, ps[1]["name"], callee_map)
+    se.stmt(body_of(method))
+    outs = [se.read(ps[1]["name"], i, None) for i in range(n_out)]
+    res = "fun k => " + " ".join("if k = %d then %s else" % (i, r) for i, r in enumerate(outs[:-1])) + " " + outs[-1]
+    lit_params = "".join(" (c%d : α)" % i for i in range(len(se.lits)))
+    in_ty = "Nat → Cx α" if in_kind == "cx" else "Nat → α"
+    body = "\n".join("  " + l for l in se.lines + [res])
+    text = "def %s%s (%s : %s) : Nat → Cx α :=\n%s\n" % (lean_name, lit_params, ps[0]["name"], in_ty, body)
+    return text, se.lits
+
+
+def gen_smallfft():
+    out = [HEADER % "lib/fft/small-fft.h (_fft_n2/_n4/_n8, complex and real input), lib/fft/primes-fft.h (_dft_n3)",
+           "import DspVerif.Gen.Cmplx\nnamespace Dsp\nnamespace Gen\n", SCALAR_VARS]
+    tu = '#include "fft/small-fft.h"\n#include "fft/primes-fft.h"\n'
+    recs = {}
+    for cls in ("SmallFftPow2C", "SmallFftPow2R", "PrimesFftC"):
+        recs[cls] = record(clang_ast(tu, cls), cls)
+
+    def method(cls, name):
+        ms = [m for m in recs[cls]["inner"] if m.get("kind") == "CXXMethodDecl" and m.get("name") == name and
+              any(c.get("kind") == "CompoundStmt" for c in m.get("inner", []))]
+        if len(ms) != 1:
+            raise Unsupported("%s::%s not found" % (cls, name))
+        return ms[0]
+
+    all_lits = {}
+    cmap = {}
+    plan = [("SmallFftPow2C", "_fft_n2", "fft2", "cx", 2), ("SmallFftPow2C", "_fft_n4", "fft4", "cx", 4),
+            ("SmallFftPow2C", "_fft_n8", "fft8", "cx", 8), ("SmallFftPow2R", "_fft_n2", "rfft2", "real", 2),
+            ("SmallFftPow2R", "_fft_n4", "rfft4", "real", 4), ("SmallFftPow2R", "_fft_n8", "rfft8", "real", 8),
+            ("PrimesFftC", "_dft_n3", "dft3", "cx", 3)]
+    for cls, mname, lname, kind, n in plan:
+        text, lits = gen_kernel(method(cls, mname), lname, kind, n, cmap)
+        if lname in ("fft4", "rfft4") and lits:
+            raise Unsupported("%s uses a non-dyadic literal" % lname)
+        out.append("/-- `%s::%s` (symbolically executed; locals are `let`s in program order) -/\n%s" % (cls, mname, text))
+        all_lits[lname] = lits
+        cmap[(mname, kind)] = (lname, n)
+    for lname, lits in all_lits.items():
+        for i, l in enumerate(lits):
+            out.append("/-- literal `c%d` of `%s` as written in the source -/\ndef %s_c%d [OfScientific α] : α := (%s : α)\n/-- … and as an exact rational (numerator, denominator) -/\ndef %s_c%d_rat : Int × Nat := (%s, %s)\n" % (
+                i, lname, lname, i, l, lname, i, *rat_of(l)))
+    out.append("end Gen\nend Dsp\n")
+    return "\n".join(out)
+
+
+def rat_of(lit):
+    from fractions import Fraction
+    fr = Fraction(lit)       # exact decimal value of the source text
+    return str(fr.numerator), str(fr.denominator)
+
+
+# ------------------------------------------------------------------------------------------
 UNITS = {}
 
 
@@ -740,6 +1062,7 @@ def unit(name, sources):
 
 unit("Cmplx", ["include/dsplib/types.h"])(gen_cmplx)
 unit("Slice", ["include/dsplib/slice.h"])(gen_slice)
+unit("SmallFft", ["lib/fft/small-fft.h", "lib/fft/primes-fft.h"])(gen_smallfft)
 unit("Consts", ["lib/primes.cpp", "lib/fft/primes-fft.h", "lib/fft/fft.cpp", "CMakeLists.txt"])(gen_consts)
 
 
